@@ -1482,10 +1482,20 @@ class Chemical:
         """Reset the `H`, `S`, `H_excess`, and `S_excess` functors."""
         if not self._eos:
             self._eos = create_eos(self.EOS_default, self._Tc, self._Pc, self._omega)
+        handles = {i: getattr(self, i, None) for i in _energy_handles}
         TDependentProperty.RAISE_PROPERTY_CALCULATION_ERROR = False
         self._init_energies(self._Cn, self._Hvap, self._Psat, self._Hfus, self._Sfus,
                             self._Tm, self._Tb, self._eos, self._phase_ref, self._S0)
         TDependentProperty.RAISE_PROPERTY_CALCULATION_ERROR = True
+        # Mixture models keep a reference to the phase handles; refresh the 
+        # existing handles in place so that they do not go stale
+        setfield = object.__setattr__
+        for i, old in handles.items():
+            new = getattr(self, i, None)
+            if isinstance(old, PhaseHandle) and type(new) is type(old) and new is not old:
+                for phase, functor in new: setfield(old, phase, functor)
+                setfield(old, 'Tc', new.Tc)
+                setfield(self, i, old)
 
     ### Initializers ###
     
